@@ -165,3 +165,5 @@ def run_thorough(ctx):
     # the cfg(windows) sibling implementation, analysed on the windows-msvc build
     import winrules
     winrules.c03_leftover(ctx)
+    import wincomm
+    wincomm.c03_grow(ctx)
